@@ -4,7 +4,7 @@ From Coq Require Import List NArith ZArith Bool Lia.
 Import ListNotations.
 From JB Require Import Constants Bytes Utf8 Num NumProofs Value Codec Order OrderProofs CodecProofs RoundtripProofs DispatchProofs
   TreeOps Path PathSem Dispatch Walk WalkProofs CompareWalk CompareWalkProofs SelWalk.
-From JB Require TreeWf ModeProofs EvalProofs.
+From JB Require TreeWf ModeProofs EvalProofs I32.
 Open Scope N_scope.
 Set Default Timeout 120.
 
@@ -352,12 +352,12 @@ Qed.
 Lemma index_positions_lt len a k : (0 < len)%Z -> In k (index_positions len a) -> (Z.of_nat k < len)%Z.
 Proof.
   intros Hlen. destruct a as [i|s e]; cbn [index_positions].
-  - destruct ((0 <=? resolve_index i len) && (resolve_index i len <? len))%Z eqn:E; [|intros []].
-    apply andb_true_iff in E. destruct E as [E1 E2]. apply Z.leb_le in E1. apply Z.ltb_lt in E2.
-    intros [<-|[]]. lia.
-  - destruct ((resolve_index e len <? resolve_index s len) || (len <=? resolve_index s len) || (resolve_index e len <? 0))%Z eqn:E; [intros []|].
-    apply orb_false_iff in E. destruct E as [E E3]. apply orb_false_iff in E. destruct E as [E1 E2].
-    apply Z.ltb_ge in E1. apply Z.leb_gt in E2. apply Z.ltb_ge in E3.
+  - (* the generated guard of convert_index *)
+    destruct (CI_INRANGE (resolve_index i len) len) eqn:E; [|intros []].
+    apply I32.CI_INRANGE_in_bounds in E. intros [<-|[]]. lia.
+  - (* the generated guard and clamping of convert_slice *)
+    destruct (CS_EMPTY (resolve_start s len) (resolve_end e len) len) eqn:E; [intros []|].
+    pose proof (I32.CS_in_bounds _ _ _ Hlen E) as B.
     intros H. apply range_from_bounds in H. lia.
 Qed.
 Lemma index_empty len a : index_nonempty len a = false -> index_positions len a = [].
